@@ -118,6 +118,10 @@ ARRAY_FUNCS = ["std.sum(%s)", "std.avg(%s)", "std.minArray(%s)", "std.maxArray(%
                "std.mapWithIndex(function(i, x) i * x, %s)", "std.clamp(%s[0], -1e308, 1e308)"]
 
 
+NUMERIC2 = {"pow", "atan2", "hypot", "mod", "modulo", "max", "min", "log", "round", "clamp", "__compare", "primitiveEquals", "xor", "xnor"}
+SPECIAL2 = [0.0, -0.0, 0.5, -0.5, 1.0, -1.0, 2.0, -2.0, 3.0, 1 / 3, 0.25, 1.5, 10.0, 1e308, -1e308, 5e-324, 1024.0, -1024.0, 2.0 ** 53, 0.1]
+
+
 def builtins_shard(args):
     seed, funcs, n_tuples = args
     rng = random.Random(seed)
@@ -129,6 +133,10 @@ def builtins_shard(args):
                 continue
             if arity == 1:
                 tuples = [(x,) for x in GRID]
+            elif arity == 2 and fname in NUMERIC2:
+                # builtins that take two numbers and return one: the whole grid x a sub-grid of "special" second operands
+                # (fast paths live at particular exponents / divisors / bounds), plus random pairs
+                tuples = [(a, b) for a in GRID for b in SPECIAL2] + [tuple(rng.choice(GRID) for _ in range(2)) for _ in range(n_tuples)]
             else:
                 tuples = [tuple(rng.choice(GRID) for _ in range(arity)) for _ in range(n_tuples)]
             for t in tuples:
@@ -590,7 +598,7 @@ def run(tier, seed):
         total.merge(a)
     rule = ("finiteness gate (deep walk of the Value API, not the manifested text) on: 10 binary operators over pairs "
             f"of a {len(GRID)}-point boundary grid (+ - * / also compared with IEEE arithmetic), every std function "
-            "of arity 1-4 on number tuples, array folds (sum/avg/foldl/...), parse functions on overflowing texts; texts whose value crosses the largest double at "
+            "of arity 1-4 on number tuples (two-number functions such as pow/atan2/hypot/mod on the whole grid x 20 special second operands), array folds (sum/avg/foldl/...), parse functions on overflowing texts; texts whose value crosses the largest double at "
             "their last digit for every text->number path (parseHex/parseOctal/parseInt at every length around the threshold x "
             "leading digit x filler x leading zeros x sign, decimal texts on both sides of the rounding boundary through "
             "literals/parseJson/parseYaml, 0x/0o YAML scalars); structured YAML with anchors on values/keys/items/collections "
